@@ -537,6 +537,149 @@ func (in *Interp) runFunction(fn *ssa.Function, args []Value, env []Value) Value
 	return fr.result
 }
 
+// ---- short-circuit merging -----------------------------------------------------------------------
+//
+// A condition such as  c >= 'A' && c <= 'Z' || c == '-'  (or a switch with several case expressions) is a
+// chain of blocks that only compare scalars and branch. Forking at every link multiplies the paths of a
+// byte-scan loop by the number of ways the SAME two outcomes can be reached. When the blocks between an
+// If and its (at most two) eventual targets are pure tests, the whole chain is decided by ONE branch on
+// the disjunction of the link conditions.
+
+type condLeaf struct {
+	target, pred *ssa.BasicBlock
+	cond         *Term
+}
+
+func pureTestInstr(instr ssa.Instruction) bool {
+	switch x := instr.(type) {
+	case *ssa.BinOp:
+		switch x.Op {
+		case token.EQL, token.NEQ, token.LSS, token.LEQ, token.GTR, token.GEQ, token.AND, token.OR, token.XOR, token.ADD, token.SUB:
+			return isScalarType(x.X.Type()) && isScalarType(x.Y.Type())
+		}
+		return false
+	case *ssa.UnOp:
+		return (x.Op == token.NOT || x.Op == token.SUB || x.Op == token.XOR) && isScalarType(x.X.Type())
+	case *ssa.Convert:
+		return isIntType(x.X.Type()) && isIntType(x.Type())
+	case *ssa.DebugRef:
+		return true
+	}
+	return false
+}
+
+func isIntType(t types.Type) bool {
+	b, ok := under(t).(*types.Basic)
+	return ok && b.Info()&types.IsInteger != 0
+}
+
+func isScalarType(t types.Type) bool {
+	b, ok := under(t).(*types.Basic)
+	return ok && b.Info()&(types.IsInteger|types.IsBoolean|types.IsString) != 0
+}
+
+// mergedBranch handles an If whose successors lead through pure test blocks to at most two targets.
+// It reports false (and changes nothing) when the shape does not apply.
+func (in *Interp) mergedBranch(fr *frame, b *ssa.BasicBlock, c *Term) bool {
+	if c.IsConst() {
+		return false
+	}
+	isTest := func(blk *ssa.BasicBlock) bool {
+		if blk == b || len(blk.Instrs) == 0 || len(blk.Preds) != 1 {
+			return false
+		}
+		if _, ok := blk.Instrs[len(blk.Instrs)-1].(*ssa.If); !ok {
+			return false
+		}
+		for _, instr := range blk.Instrs[:len(blk.Instrs)-1] {
+			if !pureTestInstr(instr) {
+				return false
+			}
+		}
+		return true
+	}
+	if !isTest(b.Succs[0]) && !isTest(b.Succs[1]) {
+		return false
+	}
+	tb := in.tb
+	var leaves []condLeaf
+	budget := 24
+	var expand func(blk, pred *ssa.BasicBlock, cond *Term) bool
+	expand = func(blk, pred *ssa.BasicBlock, cond *Term) bool {
+		if budget--; budget < 0 {
+			return false
+		}
+		if !isTest(blk) {
+			leaves = append(leaves, condLeaf{blk, pred, cond})
+			return true
+		}
+		for _, instr := range blk.Instrs[:len(blk.Instrs)-1] {
+			if _, ok := instr.(*ssa.DebugRef); ok {
+				continue
+			}
+			in.exec(fr, instr)
+		}
+		ct, ok := in.get(fr, blk.Instrs[len(blk.Instrs)-1].(*ssa.If).Cond).(*Term)
+		if !ok {
+			return false
+		}
+		return expand(blk.Succs[0], blk, tb.And(cond, ct)) && expand(blk.Succs[1], blk, tb.And(cond, tb.Not(ct)))
+	}
+	if !expand(b.Succs[0], b, c) || !expand(b.Succs[1], b, tb.Not(c)) {
+		return false
+	}
+	// group by target; the phis of a target must not distinguish the merged predecessors
+	var targets []*ssa.BasicBlock
+	conds := map[*ssa.BasicBlock]*Term{}
+	firstPred := map[*ssa.BasicBlock]*ssa.BasicBlock{}
+	for _, l := range leaves {
+		if _, seen := conds[l.target]; !seen {
+			targets = append(targets, l.target)
+			conds[l.target] = tb.Bool(false)
+			firstPred[l.target] = l.pred
+		}
+		conds[l.target] = tb.Or(conds[l.target], l.cond)
+	}
+	if len(targets) != 2 || len(leaves) <= 2 {
+		return false
+	}
+	for _, l := range leaves {
+		fp := firstPred[l.target]
+		if fp == l.pred {
+			continue
+		}
+		for _, instr := range l.target.Instrs {
+			phi, ok := instr.(*ssa.Phi)
+			if !ok {
+				break
+			}
+			var va, vb ssa.Value
+			for k, p := range l.target.Preds {
+				if p == fp {
+					va = phi.Edges[k]
+				}
+				if p == l.pred {
+					vb = phi.Edges[k]
+				}
+			}
+			if va != vb {
+				ta, oka := in.get(fr, va).(*Term)
+				tbv, okb := in.get(fr, vb).(*Term)
+				if !oka || !okb || ta != tbv {
+					return false
+				}
+			}
+		}
+	}
+	t0, t1 := targets[0], targets[1]
+	if in.Branch(conds[t0]) {
+		fr.prev, fr.block = firstPred[t0], t0
+	} else {
+		fr.prev, fr.block = firstPred[t1], t1
+	}
+	return true
+}
+
 func (in *Interp) runBlock(fr *frame) {
 	b := fr.block
 	fr.visits[b.Index]++
@@ -583,6 +726,9 @@ func (in *Interp) runBlock(fr *frame) {
 			return
 		case *ssa.If:
 			c := in.get(fr, x.Cond).(*Term)
+			if in.mergedBranch(fr, b, c) {
+				return
+			}
 			fr.prev = b
 			if in.Branch(c) {
 				fr.block = b.Succs[0]
